@@ -127,65 +127,3 @@ fn k_digit_3() { let (d, val) = k_digit::<3>(); kani::cover!(d >= 1 && val <= 25
 fn k_digit_4() { let (d, val) = k_digit::<4>(); kani::cover!(d == 4 && val <= 255); kani::cover!(d >= 1 && val > 255); }
 
 
-// ---- line-level grammar on a fixed valid body with symbolic channel byte and symbolic checksum field -------------------
-/// nom's take_until searches with memchr::memmem::find, whose SIMD dispatch (cpuid inline asm) Kani cannot execute: replaced by a
-/// linear search for the one-byte needles this crate uses (memchr itself is trusted)
-fn stub_memmem_find(haystack: &[u8], needle: &[u8]) -> Option<usize> {
-    let mut i = 0;
-    while i < haystack.len() {
-        if haystack[i] == needle[0] { return Some(i); }
-        i += 1;
-    }
-    None
-}
-fn stub_memchr1(needle: u8, haystack: &[u8]) -> Option<usize> {
-    let mut i = 0;
-    while i < haystack.len() {
-        if haystack[i] == needle { return Some(i); }
-        i += 1;
-    }
-    None
-}
-fn hexv(c: u8) -> Option<u32> {
-    if c >= b'0' && c <= b'9' { Some((c - b'0') as u32) } else if c >= b'a' && c <= b'f' { Some((c - b'a' + 10) as u32) }
-    else if c >= b'A' && c <= b'F' { Some((c - b'A' + 10) as u32) } else { None }
-}
-
-/// C07 / C08 / C02 (bounded stand-in): `!AIVDM,1,1,,<c>,1,0*<h0><h1><h2>` with every channel byte c (not ',' / '*') and every
-/// 3-byte checksum field: accepted exactly when the field starts with a hex digit and the hex run's value is <= 0xFF; the
-/// transmitted checksum is that value; the channel is the byte as a char
-#[kani::proof]
-#[kani::unwind(24)]
-#[kani::stub(memchr::memmem::find, stub_memmem_find)]
-#[kani::stub(memchr::memchr::memchr, stub_memchr1)]
-fn k_nmea_fields() {
-    let c: u8 = kani::any();
-    let h: [u8; 3] = kani::any();
-    kani::assume(c != b',' && c != b'*');
-    let line: [u8; 21] = [b'!', b'A', b'I', b'V', b'D', b'M', b',', b'1', b',', b'1', b',', b',', c, b',', b'1', b',', b'0', b'*', h[0], h[1], h[2]];
-    let r = parse_nmea_sentence(&line);
-    // reference: value of the leading hex run
-    let mut val: u32 = 0;
-    let mut digits = 0;
-    let mut stop = false;
-    let mut i = 0;
-    while i < 3 {
-        match hexv(h[i]) {
-            Some(v) if !stop => { val = val * 16 + v; digits += 1; }
-            _ => { stop = true; }
-        }
-        i += 1;
-    }
-    if digits >= 1 && val <= 0xff {
-        let (_rest, (raw, s, ck)) = r.unwrap();
-        assert!(ck as u32 == val);
-        assert!(raw.len() == 16);
-        assert!(s.channel == Some(c as char));
-        assert!(s.num_fragments == 1 && s.fragment_number == 1 && s.message_id.is_none() && s.fill_bit_count == 0 && s.data.len() == 1 && s.data[0] == b'1');
-    } else {
-        assert!(r.is_err());
-    }
-    kani::cover!(digits == 3 && val > 0xff);
-    kani::cover!(digits == 3 && val <= 0xff);
-    kani::cover!(c >= 0x80);
-}
